@@ -5,8 +5,8 @@
  *   attr_tree_set_value / attr_tree_get_value   UNBOUNDED in name (every string of 0..299 characters, the layout of unit
  *       attrpath), type, value, len, capacity.  attr_path_parse / attr_path_destroy are REPLACED by the contracts of unit
  *       attrpath (contracts/attrpath.h, proved there); node_lookup is REPLACED by its contract below: "the node the
- *       path resolves to" is the ghost xv_atr_hit (never assigned; NULL = does not resolve; otherwise ANY live node:
- *       value, dictionary or list, any registered type, with or without setter/getter).  The registered setter/getter are
+ *       path resolves to" is described by the ghosts xv_atr_h_* (never assigned: none / ANY live node: value, dictionary
+ *       or list, any registered type, with or without setter/getter).  The registered setter/getter are
  *       body-less, contract-carrying stubs (xv_atr_setter / xv_atr_getter) that record how they were called.
  *   node_lookup, attr_tree_add_value_node, attr_tree_get_all, attr_tree_destroy: the tree is a heap structure (TAILQ of
  *       named / indexed children); CBMC has no inductive heap predicates, so these are BOUNDED stand-ins (plain CBMC on
@@ -22,15 +22,25 @@
 #define ATR_OLD(e) __CPROVER_old(e)
 #define ATR_CALLS_MAX (1L << 40)
 #define ATR_CNT_OK(c) ((c) >= 0 && (c) < ATR_CALLS_MAX)
-/* objects need a size bound for is_fresh: a caller buffer / value of more than ATR_CAP_MAX bytes is passed through as a
- * bare pointer (nobody under proof dereferences it; the stubs do not write it).  The pass-through obligations hold for
- * EVERY len / capacity (0 .. SIZE_MAX). */
+#define ATR_CNT_OK_STUB(c) ((c) >= 0 && (c) < ATR_CALLS_MAX + 64)   /* the stubs accept a few calls more */
+/* objects need a size bound for is_fresh: a caller buffer of more than ATR_CAP_MAX bytes is represented by an object of
+ * ATR_CAP_MAX bytes (the getter stub writes at most that much); a value
+ * to be set whose content the code under proof has no business with (every type but str) is a bare pointer.  The
+ * pass-through obligations hold for EVERY len / capacity (0 .. SIZE_MAX). */
 #define ATR_CAP_MAX 65536
 /* a string value (the only type whose CONTENT attr_tree_set_value has to look at) lives in an object of <= this size */
 #define ATR_STR_MAX 64
+/* TRUSTED: the size of an attribute value as far as EOVERFLOW is concerned (xv_atr_need) is at most this */
+#ifndef ATR_NEED_MAX
+#define ATR_NEED_MAX 1024
+#endif
 
 /* ---- ghost state (havocked by ATR_GHOST_HAVOC in harness/attrtree/_unit.h) */
-struct attr_node *xv_atr_hit;     /* NEVER ASSIGNED: the node the path under lookup resolves to; NULL: it does not resolve */
+/* NEVER ASSIGNED: the node the path under lookup resolves to, described by scalars (a ghost POINTER equated with the
+ * result of the replaced node_lookup makes every dereference of the result fan out over all objects: 2.6M variables) */
+int xv_atr_h_kind;                /* -1: the path does not resolve; else enum attr_node_type (value / dict / list) */
+int xv_atr_h_type;                /* value node: the registered enum xcm_attr_type */
+_Bool xv_atr_h_set, xv_atr_h_get; /* value node: a setter / a getter is registered */
 long xv_atr_lookup_calls;         /* node_lookup ran (the name passed the syntax check) */
 /* NEVER ASSIGNED ghost constants, bound to entry values by requires clauses */
 struct xcm_socket *xv_atr_g_sock; void *xv_atr_g_ctx;      /* socket/context registered with the node */
@@ -42,11 +52,13 @@ size_t xv_atr_need;               /* NEVER ASSIGNED: size of the attribute's val
 long xv_atr_set_calls, xv_atr_set_good; int xv_atr_set_rv, xv_atr_set_errno;
 long xv_atr_get_calls, xv_atr_get_good; int xv_atr_get_rv, xv_atr_get_errno; size_t xv_atr_get_cap;
 long xv_atr_cb_calls, xv_atr_cb_good;
+const char *xv_atr_g_name; void *xv_atr_g_cbdata;          /* NEVER ASSIGNED: the name / cb_data the callback is expected to get */
+uint8_t xv_atr_mark;              /* NEVER ASSIGNED: the first byte of the value a successful getter delivers */
 
 /* ---- the registered callbacks (TRUSTED stand-ins for the ~55 real setters/getters, which have their own contracts in
  * units tcpattr, btcp, btls, tpcore, xcmcore).  They return ANY int and ANY errno. */
 int xv_atr_setter(struct xcm_socket *s, void *context, const void *value, size_t len)
-__CPROVER_requires(ATR_CNT_OK(xv_atr_set_calls) && ATR_CNT_OK(xv_atr_set_good))
+__CPROVER_requires(ATR_CNT_OK_STUB(xv_atr_set_calls) && ATR_CNT_OK_STUB(xv_atr_set_good))
 __CPROVER_assigns(xv_errno, xv_atr_set_calls, xv_atr_set_good, xv_atr_set_rv, xv_atr_set_errno)
 __CPROVER_ensures(xv_atr_set_calls == ATR_OLD(xv_atr_set_calls) + 1)
 __CPROVER_ensures(xv_atr_set_good == ATR_OLD(xv_atr_set_good) + \
@@ -54,18 +66,42 @@ __CPROVER_ensures(xv_atr_set_good == ATR_OLD(xv_atr_set_good) + \
 __CPROVER_ensures(xv_atr_set_rv == ATR_RV && xv_atr_set_errno == xv_errno)
 ;
 /* the getter's precondition is the C10 obligation on its caller: the buffer handed down is writable for `capacity` bytes
- * (checked at the call site for every capacity up to ATR_CAP_MAX).  EOVERFLOW is only reported for a capacity below the
- * size of the value (xv_atr_need, any value up to ATR_CAP_MAX): what C10 demands of every getter, proved in their units. */
+ * (checked at the call site; a buffer of more than ATR_CAP_MAX bytes is represented by its first ATR_CAP_MAX bytes).
+ * What is assumed of a getter is what C10 demands of every getter and what their own units prove: it writes inside the
+ * buffer, a success returns the number of bytes written (<= capacity; == sizeof(T) for bool/int64/double; a str is
+ * NUL-terminated at rv-1), EOVERFLOW is only reported for a capacity below the size of the value.  TRUSTED: an attribute
+ * value has at most ATR_NEED_MAX bytes (xv_atr_need, any value up to that). */
+#define ATR_BUF_SIZE(cap) ((cap) <= ATR_CAP_MAX ? (cap) : (size_t)ATR_CAP_MAX)
 int xv_atr_getter(struct xcm_socket *s, void *context, void *value, size_t capacity)
-__CPROVER_requires(ATR_CNT_OK(xv_atr_get_calls) && ATR_CNT_OK(xv_atr_get_good) && xv_atr_need <= ATR_CAP_MAX)
-__CPROVER_requires(capacity == 0 || capacity > ATR_CAP_MAX || __CPROVER_w_ok(value, capacity))
+__CPROVER_requires(ATR_CNT_OK_STUB(xv_atr_get_calls) && ATR_CNT_OK_STUB(xv_atr_get_good) && xv_atr_need <= ATR_NEED_MAX)
+__CPROVER_requires(capacity == 0 || __CPROVER_w_ok(value, ATR_BUF_SIZE(capacity)))
 __CPROVER_assigns(xv_errno, xv_atr_get_calls, xv_atr_get_good, xv_atr_get_rv, xv_atr_get_errno, xv_atr_get_cap)
 __CPROVER_assigns(capacity > 0 && capacity <= ATR_CAP_MAX: __CPROVER_object_upto(value, capacity))
+__CPROVER_assigns(capacity > ATR_CAP_MAX: __CPROVER_object_upto(value, ATR_CAP_MAX))
 __CPROVER_ensures(xv_atr_get_calls == ATR_OLD(xv_atr_get_calls) + 1 && xv_atr_get_cap == capacity)
 __CPROVER_ensures(xv_atr_get_good == ATR_OLD(xv_atr_get_good) + \
                   ((s == xv_atr_g_sock && context == xv_atr_g_ctx && value == xv_atr_g_buf && capacity == xv_atr_g_cap) ? 1 : 0))
 __CPROVER_ensures(xv_atr_get_rv == ATR_RV && xv_atr_get_errno == xv_errno)
 __CPROVER_ensures((ATR_RV < 0 && xv_errno == EOVERFLOW) ==> capacity < xv_atr_need)
+__CPROVER_ensures(ATR_RV >= 0 ==> ((size_t)ATR_RV <= capacity && (size_t)ATR_RV <= xv_atr_need))
+__CPROVER_ensures((ATR_RV >= 0 && xv_atr_h_type == xcm_attr_type_bool) ==> ATR_RV == sizeof(bool))
+__CPROVER_ensures((ATR_RV >= 0 && (xv_atr_h_type == xcm_attr_type_int64 || xv_atr_h_type == xcm_attr_type_double)) ==> ATR_RV == 8)
+__CPROVER_ensures((ATR_RV >= 0 && xv_atr_h_type == xcm_attr_type_str) ==> (ATR_RV >= 1 && ((const char *)value)[ATR_RV - 1] == 0))
+/* (names the first byte of the value read: the callback of attr_tree_get_all must see it.  Position 0, not an arbitrary
+ * one: a read at a symbolic offset of each of the buffers of visit_value costs 0.4M variables) */
+__CPROVER_ensures((ATR_RV >= 1 && !(xv_atr_h_type == xcm_attr_type_str && ATR_RV == 1)) ==> ((const uint8_t *)value)[0] == xv_atr_mark)
+;
+/* ---- libxcm/core/log_attr_tree.c: attr_tree_get_value formats every value it has read for the log, whether or not
+ * logging is enabled (LOG_ATTR_TREE_GET_RESULT).  Its precondition -- what it reads of `value` for each type -- is an
+ * obligation at the call site: the bytes formatted lie inside what the getter reported as written. */
+void log_attr_str_value(enum xcm_attr_type type, const void *value, size_t len, char *buf, size_t capacity)
+__CPROVER_requires(capacity >= 64 && __CPROVER_w_ok(buf, capacity))
+__CPROVER_requires(type == xcm_attr_type_bool ==> __CPROVER_r_ok(value, sizeof(bool)))
+__CPROVER_requires((type == xcm_attr_type_int64 || type == xcm_attr_type_double) ==> __CPROVER_r_ok(value, 8))
+__CPROVER_requires(type == xcm_attr_type_str ==> (len >= 1 && __CPROVER_r_ok(value, len) && ((const char *)value)[len - 1] == 0))
+__CPROVER_requires(type == xcm_attr_type_bin ==> (len == 0 || __CPROVER_r_ok(value, len)))
+__CPROVER_assigns(__CPROVER_object_upto(buf, capacity))
+__CPROVER_ensures(1)
 ;
 
 /* ---- node shapes */
@@ -74,16 +110,28 @@ __CPROVER_ensures((ATR_RV < 0 && xv_errno == EOVERFLOW) ==> capacity < xv_atr_ne
 #define ATR_KIND_OK(n) ((n)->type == attr_node_type_value || (n)->type == attr_node_type_dict || (n)->type == attr_node_type_list)
 /* a value node as attr_tree_add_value_node makes it: one of the five types, socket/context as registered, setter and
  * getter each absent (NULL) or the stub */
-#define ATR_VALUE_FIELDS_OK(n) (ATR_TYPE_VALID((n)->value.type) && (n)->value.s == xv_atr_g_sock && (n)->value.context == xv_atr_g_ctx && \
+#define ATR_VALUE_FIELDS_OK(n) (ATR_TYPE_VALID((n)->value.type) && (int)(n)->value.type == xv_atr_h_type && (n)->value.s == xv_atr_g_sock && (n)->value.context == xv_atr_g_ctx && \
         ((n)->value.set == NULL || (n)->value.set == xv_atr_setter) && ((n)->value.get == NULL || (n)->value.get == xv_atr_getter))
-#define ATR_HIT_REQ (xv_atr_hit == NULL || (__CPROVER_is_fresh(xv_atr_hit, sizeof(struct attr_node)) && ATR_KIND_OK(xv_atr_hit) && \
-        (xv_atr_hit->type == attr_node_type_value ==> ATR_VALUE_FIELDS_OK(xv_atr_hit))))
-#define ATR_H xv_atr_hit
-#define ATR_UNKNOWN (ATR_H == NULL)
-#define ATR_CONTAINER (ATR_H != NULL && ATR_H->type != attr_node_type_value)
-#define ATR_ISVAL (ATR_H != NULL && ATR_H->type == attr_node_type_value)
-#define ATR_WRITABLE (ATR_ISVAL && ATR_H->value.set != NULL)
-#define ATR_READABLE (ATR_ISVAL && ATR_H->value.get != NULL)
+/* The two outcomes of the lookup are two VARIANTS of each job (-DXV_ATR_HIT=1: resolves to some node, =0: does not
+ * resolve): a replaced contract that yields "NULL or a fresh node" costs 3.5M variables (0.3M each way). */
+#ifndef XV_ATR_HIT
+#define XV_ATR_HIT 1
+#endif
+#if XV_ATR_HIT
+#define ATR_HIT_REQ (xv_atr_h_kind >= 0 && xv_atr_h_kind <= 2 && ATR_TYPE_VALID(xv_atr_h_type))
+#define ATR_HIT_IS(n) (__CPROVER_is_fresh((n), sizeof(struct attr_node)) && (int)(n)->type == xv_atr_h_kind && \
+        (xv_atr_h_kind == attr_node_type_value ==> ((int)(n)->value.type == xv_atr_h_type && (n)->value.s == xv_atr_g_sock && (n)->value.context == xv_atr_g_ctx && \
+            (n)->value.set == (xv_atr_h_set ? xv_atr_setter : NULL) && (n)->value.get == (xv_atr_h_get ? xv_atr_getter : NULL))))
+#else
+#define ATR_HIT_REQ (xv_atr_h_kind == -1)
+#define ATR_HIT_IS(n) ((n) == NULL)
+#endif
+#define ATR_UNKNOWN (xv_atr_h_kind < 0)
+#define ATR_CONTAINER (xv_atr_h_kind == attr_node_type_dict || xv_atr_h_kind == attr_node_type_list)
+#define ATR_ISVAL (xv_atr_h_kind == attr_node_type_value)
+#define ATR_WRITABLE (ATR_ISVAL && xv_atr_h_set)
+#define ATR_READABLE (ATR_ISVAL && xv_atr_h_get)
+#define ATR_REG_TYPE xv_atr_h_type
 /* the name passed attr_path_parse: observable as "node_lookup ran" */
 #define ATR_LOOKED_UP (xv_atr_lookup_calls == ATR_OLD(xv_atr_lookup_calls) + 1)
 #define ATR_NOT_LOOKED_UP (xv_atr_lookup_calls == ATR_OLD(xv_atr_lookup_calls))
@@ -91,13 +139,14 @@ __CPROVER_ensures((ATR_RV < 0 && xv_errno == EOVERFLOW) ==> capacity < xv_atr_ne
 /* the name: a string in the layout of unit attrpath (the three requires clauses of attr_path_parse) */
 #define ATR_NAME_REQ(p) (__CPROVER_pointer_in_range_dfcc(xv_ap_base, (p), xv_ap_base + AP_END) && AP_OFF(p) == AP_END - xv_ap_len)
 
-/* ---- node_lookup.  Where it REPLACES the call (attr_tree_set_value / attr_tree_get_value) the result is the ghost
- * xv_atr_hit, which the contract under proof makes NULL or ANY live node.  That node_lookup really returns NULL or a
+/* ---- node_lookup.  Where it REPLACES the call (attr_tree_set_value / attr_tree_get_value) the result is NULL or a
+ * live node as the ghosts xv_atr_h_* (never assigned, arbitrary) describe it.  That node_lookup really returns NULL or a
  * node of the tree -- and which one -- is what the bounded jobs tree_* check on the real text. */
 static struct attr_node *node_lookup(struct attr_node *root, const struct attr_path *path)
 __CPROVER_requires(__CPROVER_r_ok(path, sizeof(struct attr_path)) && ATR_CNT_OK(xv_atr_lookup_calls))
 __CPROVER_assigns(xv_atr_lookup_calls)
-__CPROVER_ensures(ATR_RV == xv_atr_hit && ATR_LOOKED_UP)
+__CPROVER_ensures(ATR_LOOKED_UP)
+__CPROVER_ensures(ATR_HIT_IS(ATR_RV))
 ;
 
 /* ---- attr_tree_set_value */
@@ -149,7 +198,7 @@ __CPROVER_ensures((ATR_ISVAL && !ATR_WRITABLE) ==> (ATR_RV == -1 && ATR_NO_SETTE
 /* PO[C10] attr_tree_set_value.read_only_eacces: whatever type the caller names */
 __CPROVER_ensures((ATR_ISVAL && !ATR_WRITABLE && ATR_LOOKED_UP) ==> ATR_REJECTED(EACCES))
 /* PO[C10] attr_tree_set_value.wrong_type_einval_before_setter: a type other than the registered one (any int) */
-__CPROVER_ensures((ATR_WRITABLE && type != ATR_H->value.type) ==> ATR_REJECTED(EINVAL))
+__CPROVER_ensures((ATR_WRITABLE && (int)type != ATR_REG_TYPE) ==> ATR_REJECTED(EINVAL))
 /* PO[C10] attr_tree_set_value.wrong_length_rejected_before_setter */
 __CPROVER_ensures(!ATR_LEN_OK(type, len) ==> (ATR_RV == -1 && ATR_NO_SETTER && ATR_SET_ERRNO_IN3))
 /* PO[C10] attr_tree_set_value.wrong_length_einval */
@@ -162,14 +211,14 @@ __CPROVER_ensures((ATR_WRITABLE && type == xcm_attr_type_str && ATR_STR_UNTERMIN
 __CPROVER_ensures((type == xcm_attr_type_str && ATR_STR_SHORTER(value, len)) ==> (ATR_RV == -1 && ATR_NO_SETTER && ATR_SET_ERRNO_IN3))
 #endif
 /* PO[C10] attr_tree_set_value.errno_is_truthful: ENOENT only for a name that does not resolve, EACCES only for an existing node that cannot be written, EINVAL only for a malformed name/value or a type other than the registered one */
-__CPROVER_ensures((ATR_RV == -1 && ATR_NO_SETTER) ==> (ATR_SET_ERRNO_IN3 && (xv_errno == ENOENT ==> ATR_UNKNOWN) && (xv_errno == EACCES ==> (ATR_H != NULL && !ATR_WRITABLE)) && \
-                  (xv_errno == EINVAL ==> (ATR_NOT_LOOKED_UP || (ATR_WRITABLE && type != ATR_H->value.type)))))
+__CPROVER_ensures((ATR_RV == -1 && ATR_NO_SETTER) ==> (ATR_SET_ERRNO_IN3 && (xv_errno == ENOENT ==> ATR_UNKNOWN) && (xv_errno == EACCES ==> (!ATR_UNKNOWN && !ATR_WRITABLE)) && \
+                  (xv_errno == EINVAL ==> (ATR_NOT_LOOKED_UP || (ATR_WRITABLE && (int)type != ATR_REG_TYPE)))))
 __CPROVER_ensures((ATR_RV == -1 && xv_errno == EINVAL && ATR_NOT_LOOKED_UP && xv_ap_len == 0) ==> !ATR_LEN_OK(type, len))
 /* PO[C10] attr_tree_set_value.setter_runs_at_most_once_with_the_callers_value_only_if_everything_fits */
 __CPROVER_ensures(ATR_NO_SETTER || (xv_atr_set_calls == ATR_OLD(xv_atr_set_calls) + 1 && xv_atr_set_good == ATR_OLD(xv_atr_set_good) + 1 && ATR_LOOKED_UP && \
-                  ATR_WRITABLE && type == ATR_H->value.type && ATR_LEN_OK(type, len)))
+                  ATR_WRITABLE && (int)type == ATR_REG_TYPE && ATR_LEN_OK(type, len)))
 /* PO[C10] attr_tree_set_value.accepted_value_reaches_setter_once */
-__CPROVER_ensures((ATR_WRITABLE && type == ATR_H->value.type && ATR_LEN_OK(type, len) && ATR_LOOKED_UP) ==> \
+__CPROVER_ensures((ATR_WRITABLE && (int)type == ATR_REG_TYPE && ATR_LEN_OK(type, len) && ATR_LOOKED_UP) ==> \
                   (xv_atr_set_calls == ATR_OLD(xv_atr_set_calls) + 1 && xv_atr_set_good == ATR_OLD(xv_atr_set_good) + 1))
 /* PO[C10] attr_tree_set_value.setter_result_passed_through */
 __CPROVER_ensures(!ATR_NO_SETTER ==> (ATR_RV == (xv_atr_set_rv < 0 ? -1 : xv_atr_set_rv) && xv_errno == xv_atr_set_errno))
@@ -178,7 +227,7 @@ __CPROVER_ensures(!ATR_NO_SETTER ==> (ATR_RV == (xv_atr_set_rv < 0 ? -1 : xv_atr
 /* ---- attr_tree_get_value */
 #define ATR_NO_GETTER (xv_atr_get_calls == ATR_OLD(xv_atr_get_calls) && xv_atr_get_good == ATR_OLD(xv_atr_get_good))
 /* the caller's buffer (arbitrary byte xv_j) and *type are as on entry */
-#define ATR_BUF_J_VALID(cap) ((cap) <= ATR_CAP_MAX && xv_j >= 0 && (size_t)xv_j < (cap))
+#define ATR_BUF_J_VALID(cap) (xv_j >= 0 && (size_t)xv_j < ATR_BUF_SIZE(cap))
 #define ATR_UNTOUCHED(tp, v, cap) ((ATR_BUF_J_VALID(cap) ==> ((const uint8_t *)(v))[xv_j] == xv_atr_g_byte) && ((tp) != NULL ==> (int)*(tp) == xv_atr_g_type))
 #define ATR_GET_REJECTED(e, tp, v, cap) (ATR_RV == -1 && xv_errno == (e) && ATR_NO_GETTER && ATR_UNTOUCHED(tp, v, cap))
 
@@ -188,15 +237,16 @@ __CPROVER_requires(AP_BASE_FRESH)
 __CPROVER_requires(AP_BASE_STR)
 __CPROVER_requires(ATR_NAME_REQ(path_str))
 __CPROVER_requires(ATR_HIT_REQ)
-__CPROVER_requires(ATR_CNT_OK(xv_atr_lookup_calls) && ATR_CNT_OK(xv_atr_get_calls) && ATR_CNT_OK(xv_atr_get_good) && xv_atr_need <= ATR_CAP_MAX)
+__CPROVER_requires(ATR_CNT_OK(xv_atr_lookup_calls) && ATR_CNT_OK(xv_atr_get_calls) && ATR_CNT_OK(xv_atr_get_good) && xv_atr_need <= ATR_NEED_MAX)
 __CPROVER_requires(type == NULL || __CPROVER_is_fresh(type, sizeof(*type)))
-__CPROVER_requires((capacity >= 1 && capacity <= ATR_CAP_MAX) ==> __CPROVER_is_fresh(value, capacity))
+__CPROVER_requires(capacity >= 1 ==> __CPROVER_is_fresh(value, ATR_BUF_SIZE(capacity)))
 __CPROVER_requires(value == xv_atr_g_buf && capacity == xv_atr_g_cap)
 __CPROVER_requires(ATR_BUF_J_VALID(capacity) ==> ((const uint8_t *)value)[xv_j] == xv_atr_g_byte)
 __CPROVER_requires(type != NULL ==> (int)*type == xv_atr_g_type)
 __CPROVER_assigns(xv_errno, xv_atr_lookup_calls, xv_atr_get_calls, xv_atr_get_good, xv_atr_get_rv, xv_atr_get_errno, xv_atr_get_cap, xv_ap_strtol_val, xv_ap_strtol_used)
 __CPROVER_assigns(type != NULL: *type)
 __CPROVER_assigns(capacity > 0 && capacity <= ATR_CAP_MAX: __CPROVER_object_upto(value, capacity))
+__CPROVER_assigns(capacity > ATR_CAP_MAX: __CPROVER_object_upto(value, ATR_CAP_MAX))
 __CPROVER_ensures(ATR_RV >= -1)
 /* PO[C10] attr_tree_get_value.overlong_name_einval_nothing_written */
 __CPROVER_ensures(xv_ap_len > ATTR_PATH_NAME_MAX ==> ATR_GET_REJECTED(EINVAL, type, value, capacity))
@@ -219,11 +269,11 @@ __CPROVER_ensures(ATR_NO_GETTER || (xv_atr_get_calls == ATR_OLD(xv_atr_get_calls
 /* PO[C10] attr_tree_get_value.getter_result_returned_unchanged */
 __CPROVER_ensures(!ATR_NO_GETTER ==> (ATR_RV == (xv_atr_get_rv < 0 ? -1 : xv_atr_get_rv) && xv_errno == xv_atr_get_errno))
 /* PO[C10] attr_tree_get_value.type_reported_is_the_registered_type */
-__CPROVER_ensures((!ATR_NO_GETTER && type != NULL) ==> *type == ATR_H->value.type)
+__CPROVER_ensures((!ATR_NO_GETTER && type != NULL) ==> (int)*type == ATR_REG_TYPE)
 /* PO[C10] attr_tree_get_value.no_getter_nothing_written */
 __CPROVER_ensures(ATR_NO_GETTER ==> (ATR_RV == -1 && ATR_UNTOUCHED(type, value, capacity) && (xv_errno == ENOENT || xv_errno == EACCES || xv_errno == EINVAL)))
 /* PO[C10] attr_tree_get_value.errno_is_truthful */
-__CPROVER_ensures(ATR_NO_GETTER ==> ((xv_errno == ENOENT ==> ATR_UNKNOWN) && (xv_errno == EACCES ==> (ATR_H != NULL && !ATR_READABLE)) && (xv_errno == EINVAL ==> ATR_NOT_LOOKED_UP)))
+__CPROVER_ensures(ATR_NO_GETTER ==> ((xv_errno == ENOENT ==> ATR_UNKNOWN) && (xv_errno == EACCES ==> (!ATR_UNKNOWN && !ATR_READABLE)) && (xv_errno == EINVAL ==> ATR_NOT_LOOKED_UP)))
 ;
 
 /* ---- attr_node_value_set / attr_node_value_get: dispatch to the registered function with the registered socket and
@@ -240,14 +290,48 @@ __CPROVER_ensures(ATR_RV == xv_atr_set_rv && xv_errno == xv_atr_set_errno)
 ;
 int attr_node_value_get(const struct attr_node *value_node, void *value, size_t capacity)
 __CPROVER_requires(ATR_VNODE_REQ(value_node) && value_node->value.get != NULL)
-__CPROVER_requires(ATR_CNT_OK(xv_atr_get_calls) && ATR_CNT_OK(xv_atr_get_good) && xv_atr_need <= ATR_CAP_MAX && value == xv_atr_g_buf && capacity == xv_atr_g_cap)
-__CPROVER_requires((capacity >= 1 && capacity <= ATR_CAP_MAX) ==> __CPROVER_is_fresh(value, capacity))
+__CPROVER_requires(capacity >= 1 ==> __CPROVER_is_fresh(value, ATR_BUF_SIZE(capacity)))
+__CPROVER_requires(ATR_CNT_OK(xv_atr_get_calls) && ATR_CNT_OK(xv_atr_get_good) && xv_atr_need <= ATR_NEED_MAX && value == xv_atr_g_buf && capacity == xv_atr_g_cap)
 __CPROVER_assigns(xv_errno, xv_atr_get_calls, xv_atr_get_good, xv_atr_get_rv, xv_atr_get_errno, xv_atr_get_cap)
 __CPROVER_assigns(capacity > 0 && capacity <= ATR_CAP_MAX: __CPROVER_object_upto(value, capacity))
+__CPROVER_assigns(capacity > ATR_CAP_MAX: __CPROVER_object_upto(value, ATR_CAP_MAX))
 /* PO[C10] attr_node_value_get.dispatches_once_with_the_callers_buffer_and_capacity */
 __CPROVER_ensures(xv_atr_get_calls == ATR_OLD(xv_atr_get_calls) + 1 && xv_atr_get_good == ATR_OLD(xv_atr_get_good) + 1 && xv_atr_get_cap == capacity)
 /* PO[C10] attr_node_value_get.result_unchanged */
 __CPROVER_ensures(ATR_RV == xv_atr_get_rv && xv_errno == xv_atr_get_errno)
+;
+
+/* ---- attr_tree_get_all: one value node.  The application's callback is a body-less stub that records its calls; its
+ * precondition (checked at the call site) is that the value it is shown is readable for value_len bytes. */
+void xv_atr_cb(const char *attr_name, enum xcm_attr_type type, void *value, size_t value_len, void *cb_data)
+__CPROVER_requires(ATR_CNT_OK_STUB(xv_atr_cb_calls) && ATR_CNT_OK_STUB(xv_atr_cb_good))
+__CPROVER_requires(value_len == 0 || __CPROVER_r_ok(value, value_len))
+__CPROVER_assigns(xv_atr_cb_calls, xv_atr_cb_good)
+__CPROVER_ensures(xv_atr_cb_calls == ATR_OLD(xv_atr_cb_calls) + 1)
+__CPROVER_ensures(xv_atr_cb_good == ATR_OLD(xv_atr_cb_good) + \
+                  ((attr_name == xv_atr_g_name && (int)type == xv_atr_h_type && cb_data == xv_atr_g_cbdata && xv_atr_get_rv >= 0 && value_len == (size_t)xv_atr_get_rv && \
+                    ((value_len >= 1 && !(xv_atr_h_type == xcm_attr_type_str && value_len == 1)) ==> ((const uint8_t *)value)[0] == xv_atr_mark)) ? 1 : 0))
+;
+/* 256 << (ATR_NEED_TRIES - 1) == ATR_NEED_MAX */
+#define ATR_NEED_TRIES 3
+_Static_assert((256 << (ATR_NEED_TRIES - 1)) == ATR_NEED_MAX, "ATR_NEED_TRIES");
+#define ATR_NO_CB (xv_atr_cb_calls == ATR_OLD(xv_atr_cb_calls) && xv_atr_cb_good == ATR_OLD(xv_atr_cb_good))
+#define ATR_ONE_GOOD_CB (xv_atr_cb_calls == ATR_OLD(xv_atr_cb_calls) + 1 && xv_atr_cb_good == ATR_OLD(xv_atr_cb_good) + 1)
+static void visit_value(const char *path, const struct attr_node *value_node, xcm_attr_cb cb, void *cb_data)
+__CPROVER_requires(ATR_VNODE_REQ(value_node) && cb == xv_atr_cb && path == xv_atr_g_name && cb_data == xv_atr_g_cbdata)
+__CPROVER_requires(ATR_CNT_OK(xv_atr_get_calls) && ATR_CNT_OK(xv_atr_get_good) && ATR_CNT_OK(xv_atr_cb_calls) && ATR_CNT_OK(xv_atr_cb_good) && xv_atr_need <= ATR_NEED_MAX)
+__CPROVER_assigns(xv_errno, xv_atr_get_calls, xv_atr_get_good, xv_atr_get_rv, xv_atr_get_errno, xv_atr_get_cap, xv_atr_cb_calls, xv_atr_cb_good)
+/* PO[C10] visit_value.write_only_attribute_skipped */
+__CPROVER_ensures(value_node->value.get == NULL ==> (ATR_NO_GETTER && ATR_NO_CB))
+/* PO[C10] visit_value.read_through_the_registered_getter_with_a_buffer_of_at_least_256_bytes */
+__CPROVER_ensures(value_node->value.get != NULL ==> (xv_atr_get_calls >= ATR_OLD(xv_atr_get_calls) + 1 && xv_atr_get_calls <= ATR_OLD(xv_atr_get_calls) + ATR_NEED_TRIES && xv_atr_get_cap >= 256))
+/* PO[C10] visit_value.retried_with_a_larger_buffer_only_on_eoverflow: the last attempt is the only one that may have any other outcome */
+__CPROVER_ensures(value_node->value.get != NULL ==> !(xv_atr_get_rv < 0 && xv_atr_get_errno == EOVERFLOW))
+__CPROVER_ensures((value_node->value.get != NULL && xv_atr_get_calls > ATR_OLD(xv_atr_get_calls) + 1) ==> xv_atr_get_cap >= 512)
+/* PO[C10] visit_value.value_reported_once_with_registered_type_and_exact_length */
+__CPROVER_ensures((value_node->value.get != NULL && xv_atr_get_rv >= 0) ==> ATR_ONE_GOOD_CB)
+/* PO[C10] visit_value.failing_getter_skipped */
+__CPROVER_ensures((value_node->value.get != NULL && xv_atr_get_rv < 0) ==> ATR_NO_CB)
 ;
 
 #include "contracts/end.h"
